@@ -434,6 +434,20 @@ theorem checkExpiry_boundary (t : Int) : checkExpiry t (some t) = .fresh := by
 theorem checkExpiry_one_later (t : Int) : checkExpiry (t + 1) (some t) = .expired := by
   simp [checkExpiry]; omega
 
+/-- the model's times are unbounded integers: a next-update ANY distance in the past is expired and
+ANY distance ahead is fresh - there is no representation to overflow (centuries back, year 9999,
+before the Unix epoch ...). The real code is held to this by the harness's family of extreme
+NextUpdate values (T) and, for every clock reading, by `Tie.source_checkExpiry_refines_model`. -/
+theorem checkExpiry_any_distance (now nu : Int) :
+    (nu < now → checkExpiry now (some nu) = .expired) ∧ (now ≤ nu → checkExpiry now (some nu) = .fresh) := by
+  constructor
+  · intro h; simp [checkExpiry]; omega
+  · intro h; simp [checkExpiry]; omega
+
+example : checkExpiry 0 (some (-32377432752)) = .expired := by decide   -- year 1000 seen from 2026
+example : checkExpiry 0 (some (-9223372037)) = .expired := by decide    -- one second past 2^63 ns back
+example : checkExpiry 0 (some 251600000000) = .fresh := by decide       -- year 9999
+
 /-- **C15 "only fresh, byte-faithful".** `Get` hands out a bundle only if the stored content is a
 well-formed entry holding exactly those base / delta bytes, both parse, both carry a
 `NextUpdate`, and neither has passed it. -/
